@@ -40,6 +40,12 @@ CHECKS["C01"] = dict(
   text="Every list of <=3 streams over 28 shapes (v4/v6, shared/new hosts, TCP/UDP, server-first, no payload, same-direction bursts with and without 50 ms gaps, 65535/65536/70000/131073-byte chunks, 1/254/255/256/300 payload-less packets between or before chunks, equal timestamps, durations around one and two wraps of the 32-bit microsecond offset, a stream earlier than all others (re-basing), two captures, packet indexes across 2^32, reassembly order != packet order) x 4 id patterns (dense, sparse, descending, >2^63) is written into one file and read back: StreamIDs, Min/Max, AllStreams, StreamByID (also absent ids), metadata, payload per direction and order of direction runs, packet references and times, StreamByFirstPacketSource on a grid around every stored packet. A second family fills one file to 16382/16383/16384 IPv4 hosts and appends every sequence of <=2 (thorough <=3) streams over {old>old,new>old,old>new,new>new,v6}.",
   note="Chunking inside a direction run and per-packet times outside the representable regime (non-monotonic, gaps >= 2^32 us) are not compared. Regimes behind 2^32 streams/packets or 65536 host groups are not reachable.")
 
+CHECKS["C07"] = dict(
+  category="model_checking", engine="E4-enum", design_ref="3/C07",
+  technique="exhaustive enumeration of ordered lists of index files, every suffix merged (and merged again) by the real index.Merge, differential oracle on the stack plus the generator's ground truth",
+  text="Every ordered list without repetition of <=3 (thorough <=4) index files over 8 file sets built so that every pair collides (same id in older/newer/extended/shrunk versions, shared and disjoint hosts, v4 and v6, earlier and later reference seconds, a newer version whose first packet is earlier, other capture names, packet indexes across 2^32, a 70000-byte chunk behind 300 payload-less packets): for every suffix start the suffix is replaced by index.Merge's output, and for every second suffix start merged again. Before and after, every visible stream (newest version per id through the stack) is compared with the generator's newest version on all C01 observations, no id may be in two output files, and 35 searches (every filter kind, sorts, limits) must give the same result on the merged stack as on the unmerged one.",
+  note="Search results are compared as sets unless the sort list ends in id. The second writer of a merge (more than 65536 host groups / 2^32 streams) is not reachable.")
+
 NOT_YET = {}
 
 def main():
